@@ -80,14 +80,15 @@ def build_callable(sig, kind, is_async, stack, raises):
     exec(compile(src, "<c14>", "exec"), g)
     bare = g["f"]
 
-    def foreign(fn):
+    def foreign(fn, **wraps_kw):
+        # updated=(): a wrapper that exposes __wrapped__ but does not copy the __dict__ of what it wraps
         if inspect.iscoroutinefunction(fn):
-            @functools.wraps(fn)
+            @functools.wraps(fn, **wraps_kw)
             async def aw(*a, **k):
                 return await fn(*a, **k)
             return aw
 
-        @functools.wraps(fn)
+        @functools.wraps(fn, **wraps_kw)
         def w(*a, **k):
             return fn(*a, **k)
         return w
@@ -106,6 +107,9 @@ def build_callable(sig, kind, is_async, stack, raises):
                 f = icontract.snapshot(lambda: 1, name="s%d" % len(log) if False else "snap%d" % id(item))(f) if False else f
         elif item == "foreign":
             f = foreign(f)
+            n_foreign += 1
+        elif item == "foreign-noupdate":
+            f = foreign(f, updated=())
             n_foreign += 1
     return bare, f, log, n_foreign, result, boom
 
@@ -175,7 +179,7 @@ def check_callable(ctx, case):
         fail("arguments-identity", "the body of the bare function received %r, the body under the contracts %r" % (loc_b, loc_d))
         return
     feats = sigmodel.shape_features(sig, shape)
-    between = any(stack[i] == "foreign" and any(s in ("require", "ensure") for s in stack[:i]) and any(
+    between = any(stack[i].startswith("foreign") and any(s in ("require", "ensure") for s in stack[:i]) and any(
         s in ("require", "ensure") for s in stack[i + 1:]) for i in range(len(stack)))
     nt = between or bool(set(feats) & {"kwonly", "posonly", "surplus_pos", "surplus_kw"}) or is_async or raises
     ctx.count("callable:" + tag)
@@ -268,7 +272,7 @@ def same(a, b):
 def st_callable_case(draw):
     sig = draw(sigmodel.st_sig())
     shape = draw(sigmodel.st_shape(sig))
-    stack = draw(st.lists(st.sampled_from(["require", "ensure", "foreign", "require", "ensure"]), min_size=1, max_size=6))
+    stack = draw(st.lists(st.sampled_from(["require", "ensure", "foreign", "require", "ensure", "foreign-noupdate"]), min_size=1, max_size=6))
     return {"part": "A", "sig": sig, "shape": shape, "kind": draw(st.sampled_from(["function", "method", "staticmethod", "classmethod"])),
             "async": draw(st.integers(0, 3)) == 0, "stack": stack, "raises": draw(st.integers(0, 4)) == 0}
 
